@@ -1,4 +1,5 @@
 import AptMirror.Model.Index
+import AptMirror.Lemmas.Index
 /-!
 # C09 — Packages/Sources parsing and package filters match the Debian index format
 
@@ -10,16 +11,20 @@ import AptMirror.Model.Index
 > marks exactly the files at or below the listed paths.
 
 Model: `Model/Index.lean` — the two line machines of `_do_parse_index`, literally.  Proved here: the building blocks that make
-the machines agree with the stanza semantics — exact field-name recognition by the `startswith(b"<Name>:")` tests (so fields whose
+the machines agree with the stanza semantics, and for Packages indices the whole-index refinement `C09_packages_refines`
+(line machine = stanza-level specification, for every stanza sequence, field order, extra fields, multi-line fields, blank
+separators and missing final newline) — exact field-name recognition by the `startswith(b"<Name>:")` tests (so fields whose
 names are prefixes or extensions of the interesting ones are inert), value extraction from a rendered field line, the effect
 of a blank line (flush of exactly the (path, size) of the stanza, then reset), the synthetic final blank line, filter and
-ignore_errors semantics.  The end-to-end refinement "machine (render stanzas) = spec stanzas" for whole indices is checked
-three-way by the harness (real parsers / model / independent stanza-based reference) and is **not** proved as one theorem
-(partial, DESIGN §9).
+ignore_errors semantics.  The corresponding refinement for Sources indices (hash-section tracking, file lines) is checked three-way by the harness
+(real parsers / model / independent stanza-based reference) and is **not** proved (partial); neither is the byte-level
+`splitLines`/decompression/mmap layer.
 -/
 namespace AptMirror
 namespace Index
 open Str
+
+private def noFilterR : Filter := { includeSource := [], excludeSource := [], includeBinary := [], excludeBinary := [] }
 
 /-- **C09 (field names are recognised exactly).** For colon-free names, a line `name: …` passes the test
     `startswith(key + ":")` iff `name = key`: longer (`Package-Type`, `Installed-Size`, `Filename-Extra`) and shorter names
@@ -163,6 +168,59 @@ theorem C09_final_flush (flt : Filter) (ign : List Path) (lines : List S) (pool 
   unfold packagesMachine
   rw [List.foldlM_append]
   simp [List.foldlM]
+
+theorem specIndex_blanks (flt : Filter) (ign : List Path) (sts : List Stanza) (last : Stanza) (k : Nat) (pool : List PoolFile) :
+    specIndex flt ign (sts ++ [{ last with blanks := k }]) pool = specIndex flt ign (sts ++ [last]) pool := by
+  simp [specIndex, List.foldlM_append]
+
+/-- **C09 (Packages: the line machine computes the stanza-level meaning of the index).** For every sequence of stanzas of
+    well-formed fields — any field order, any fields besides the four that are read (including names that are prefixes or
+    extensions of them), multi-line fields, one or more blank lines between stanzas, any number (also none) after the last
+    one, and a last line with or without its newline — `PackagesParser._do_parse_index` derives exactly what reading each
+    stanza on its own yields: at most one `(Filename, Size)` per stanza, under the filter and ignore rules (`flush`).
+    A `Size` that is no integer is the same error on both sides. -/
+theorem C09_packages_refines (flt : Filter) (ign : List Path) (sts : List Stanza) (last : Stanza)
+    (hb : ∀ st ∈ sts, 1 ≤ st.blanks) (hok : ∀ st ∈ sts ++ [last], ∀ f ∈ st.fields, f.OK) (pool : List PoolFile) :
+    packagesMachine flt ign ((sts ++ [last]).flatMap Stanza.lines) pool = specIndex flt ign (sts ++ [last]) pool := by
+  have hlines : (sts ++ [last]).flatMap Stanza.lines ++ [['\n']] =
+      (sts ++ [{ last with blanks := last.blanks + 1 }]).flatMap Stanza.lines := by
+    simp only [List.flatMap_append, List.flatMap_cons, List.flatMap_nil, List.append_nil, Stanza.lines, List.append_assoc]
+    congr 2
+    rw [List.replicate_succ']
+  unfold packagesMachine
+  rw [hlines, packages_stanzas flt ign _ ?_ ?_ pool, specIndex_blanks]
+  · cases specIndex flt ign (sts ++ [last]) pool <;> rfl
+  · intro st hst
+    rcases List.mem_append.mp hst with h | h
+    · exact hb st h
+    · simp only [List.mem_singleton] at h; subst h; simp
+  · intro st hst f hf
+    rcases List.mem_append.mp hst with h | h
+    · exact hok st (List.mem_append_left _ h) f hf
+    · simp only [List.mem_singleton] at h; subst h
+      exact hok last (by simp) f hf
+
+/-- an empty index derives nothing -/
+theorem C09_packages_empty (flt : Filter) (ign : List Path) (pool : List PoolFile) :
+    packagesMachine flt ign [] pool = .ok pool := by
+  simp [packagesMachine, List.foldlM, packagesLine_blank, flush_empty, bind, Except.bind, pure, Except.pure]
+
+/-! ### non-vacuity of the refinement: the fields of the example below are well-formed and render to its lines -/
+private def fPkg : Field := { name := kPackage, rest := " a".toList }
+private def fDecoy : Field := { name := "Package-Type".toList, rest := " udeb".toList }
+private def fFile : Field := { name := kFilename, rest := " pool/a_1.deb".toList }
+private def fDesc : Field := { name := "Description".toList, rest := " x".toList, cont := [("more".toList, ['\n']), (".".toList, ['\n'])] }
+private def fSize : Field := { name := kSize, rest := " 42".toList, eol := [] }
+example : fPkg.OK :=
+  ⟨⟨by decide, 'P', "ackage".toList, by decide, by decide⟩, Or.inl rfl,
+   fun _ => ⟨"a".toList, rfl, ⟨'a', [], rfl, by decide⟩, ⟨[], 'a', rfl, by decide⟩⟩⟩
+example : fSize.OK :=
+  ⟨⟨by decide, 'S', "ize".toList, by decide, by decide⟩, Or.inr rfl,
+   fun _ => ⟨"42".toList, rfl, ⟨'4', ['2'], rfl, by decide⟩, ⟨['4'], '2', rfl, by decide⟩⟩⟩
+example : ((⟨[fPkg, fDecoy, fFile, fDesc, fSize], 0⟩ : Stanza).lines) =
+    splitLines "Package: a\nPackage-Type: udeb\nFilename: pool/a_1.deb\nDescription: x\n more\n .\nSize: 42".toList := by decide
+example : (specIndex noFilterR [] [⟨[fPkg, fDecoy, fFile, fDesc, fSize], 0⟩] []).toOption =
+    some [{ path := ["pool", "a_1.deb"], size := 42, ignoreErrors := false }] := by decide +kernel
 
 /-! ### non-vacuity: a concrete index with a decoy field, a multi-line field, two separators and no final newline -/
 private def exText : S :=
